@@ -21,7 +21,7 @@ CHECKS = {
         level="exploration", ref="DESIGN.md §4 C01",
         technique="deterministic simulation: seeded read_plan histories on a simulated disk with read faults, consumer/allocator schedules; array reference model; ddmin replay",
         text="Seeded search over (depth, split, gulp, start, nsamps, skipback) plan histories with simulated consumers, allocators and read faults (short read, EIO, None, truncation underneath); every yielded block is compared with an array model of the stream. Sampling, not enumeration: a clean batch is evidence, not proof.",
-        note="Trusted: the harness' own SIGPROC encoder/bit packer and the array model; header parsing runs real and fault-free; files <= 256 samples, <= 3 files, <= 16 channels, plus a few per cent of 3000x1024-sample sets and of multi-gigabyte sparse sets (short plans around 2^31 / 2^32 bytes); plans may outlive their reader; library tuning constants lowered in a quarter of the runs.",
+        note="Trusted: the harness' own SIGPROC encoder/bit packer and the array model; header parsing runs real and fault-free; files <= 256 samples, <= 3 files, <= 16 channels, plus a few per cent of 3000x1024-sample sets and of multi-gigabyte sparse sets (short plans around 2^31 / 2^32 bytes); plans may outlive their reader or be handed from thread to thread (each call joined); an earlier same-size recording may have lived at the same paths; library tuning constants lowered in a quarter of the runs.",
     ),
     "C02": dict(
         level="exploration", ref="DESIGN.md §4 C02",
@@ -39,7 +39,7 @@ CHECKS = {
         level="exploration", ref="DESIGN.md §4 C06",
         technique="deterministic simulation: seeded streaming-reduction runs under two chunkings on a simulated disk with read faults vs in-memory reference definitions; ddmin replay",
         text="Each streaming reduction (collapse, bandpass, read_chan, dedisperse, compute_stats, compute_stats_basic) is run under two seeded gulps on generated sub-ranges, depths, splits and DMs; results are compared with the definition on the selected samples (bit-exact where arithmetic is exact) and with each other. Fault runs (short read, EIO) assert raises-or-exact.",
-        note="Trusted: harness encoder and numpy definitions; delays from the library (C09). Integer-valued samples so float32 sums are exact. Files <= 200 samples, <= 16 channels, kernels on 1 thread.",
+        note="Trusted: harness encoder and numpy definitions; delays from the library (C09). Integer-valued samples so float32 sums are exact. Files <= 200 samples, <= 16 channels, kernels on 1 thread. In 12% of the scenarios another task (another beam, own reader) runs the same reduction at a scheduling point right after one of the call's reads.",
     ),
     "C07": dict(
         level="exploration", ref="DESIGN.md §4 C07",
